@@ -23,6 +23,10 @@ P_FIELD = 2 ** 256 - 2 ** 32 - 977
 N_ORDER = 0xFFFFFFFFFFFFFFFFFFFFFFFFFFFFFFFEBAAEDCE6AF48A03BBFD25E8CD0364141
 R256 = 2 ** 256
 
+# evidence (and replay files) are the record of runs against /repo itself; a run against a scratch tree (VERIF_REPO set, used by
+# tools/detect.sh for seeded changes) writes them to a scratch directory instead
+EVIDENCE_DIR = os.path.join(VERIF, 'evidence') if REPO == '/repo' else (os.environ.get('VERIF_EVIDENCE_DIR') or os.path.join(tempfile.gettempdir(), 'verif-evidence-scratch'))
+
 GOENV = dict(os.environ, GOFLAGS='-mod=mod', GOPROXY='off', GOSUMDB='off', GOTOOLCHAIN='local')
 
 _workdir = None
@@ -312,7 +316,7 @@ class Check:
         self.extra = {}
         self.skip_prefixes = []
         self.jobs = int(os.environ.get('VERIF_JOBS', '16'))
-        rdir = os.path.join(VERIF, 'evidence', 'replay')
+        rdir = os.path.join(EVIDENCE_DIR, 'replay')
         if os.path.isdir(rdir) and not getattr(self, 'quiet', False) and _PARENT is None:
             for fn in os.listdir(rdir):
                 if fn.startswith(pid + '_'):
@@ -500,7 +504,7 @@ class Check:
         failed = [o for o in self.obls if o.result != o.expect]
         viol_lines = []
         known_lines = []
-        rdir = os.path.join(VERIF, 'evidence', 'replay')
+        rdir = os.path.join(EVIDENCE_DIR, 'replay')
         os.makedirs(rdir, exist_ok=True)
         for o in failed:
             base = o.name.split('#')[0]
@@ -527,6 +531,16 @@ class Check:
             viol_lines.append('VIOLATION property=%s replay=%s' % (self.pid, rp))
             self.violations.append((o.name, detail))
         self.write_evidence(len(viol_lines))
+        if self.violations:
+            import re
+            groups = {}
+            for nm, det in self.violations:
+                g = re.sub(r'\d+', 'N', nm.split('#')[0])
+                groups.setdefault(g, []).append((nm, det))
+            self.log('failed obligations by family (digits -> N):')
+            for g, l in sorted(groups.items(), key=lambda kv: -len(kv[1]))[:14]:
+                nm, det = l[0]
+                self.log('  %4d x %s   e.g. %s -> %s %s' % (len(l), g, nm, det['result'], str(det.get('model') or '')[:160]))
         for ln in sorted(set(known_lines)):
             print(ln)
         for ln in viol_lines[:50]:
@@ -542,7 +556,7 @@ class Check:
         sys.exit(0 if ok else 1)
 
     def write_evidence(self, nviol):
-        os.makedirs(os.path.join(VERIF, 'evidence'), exist_ok=True)
+        os.makedirs(EVIDENCE_DIR, exist_ok=True)
         nontriv = {}
         st = {}
         for o in self.obls:
@@ -596,5 +610,43 @@ class Check:
             'violations': nviol,
         }
         ev['coverage'].update(self.extra)
-        with open(os.path.join(VERIF, 'evidence', '%s.json' % self.pid), 'w') as fh:
+        with open(os.path.join(EVIDENCE_DIR, '%s.json' % self.pid), 'w') as fh:
             json.dump(ev, fh, indent=1, default=str)
+
+
+# --------------------------------------------------------------------- size thresholds read from the code
+def dispatch_lengths(prog, roots, lo=2, hi=1100, depth=3, base=()):
+    """List lengths at which the routines `roots` (SSA function names) could change algorithm: every integer constant c in [lo, hi] that
+    the current tree's SSA of these functions -- and of the module functions they call, `depth` levels down -- compares a value with
+    (BinOp < <= > >= == !=), as {c-1, c, c+1}.  A batch threshold, a chunk size or a small-input fast path of a changed tree is thereby
+    exercised on both sides without the harness knowing it in advance.  Returns a sorted list (merged with `base`)."""
+    seen, todo, consts = set(), [(r, 0) for r in roots], set()
+    while todo:
+        fn, d = todo.pop()
+        if fn in seen:
+            continue
+        seen.add(fn)
+        f = prog.funcs.get(fn)
+        if not f or 'blocks' not in f:
+            continue
+        for b in f['blocks']:
+            for I in b['instrs']:
+                if I['op'] == 'BinOp' and I.get('tok') in ('<', '<=', '>', '>=', '==', '!='):
+                    for side in ('x', 'y'):
+                        v = I.get(side)
+                        if isinstance(v, dict) and v.get('k') == 'c' and 'i' in v:
+                            try:
+                                c = int(v['i'])
+                            except (TypeError, ValueError):
+                                continue
+                            if lo <= c <= hi:
+                                consts.add(c)
+                elif I['op'] in ('Call', 'Go', 'Defer') and d < depth:
+                    fv = (I.get('call') or {}).get('fn') or {}
+                    n = fv.get('n') if isinstance(fv, dict) and fv.get('k') == 'f' else None
+                    if n and n.startswith(('(*' + MOD, MOD)) and n not in seen:
+                        todo.append((n, d + 1))
+    out = set(base)
+    for c in consts:
+        out.update(x for x in (c - 1, c, c + 1) if x >= 0)
+    return sorted(out), sorted(consts)
